@@ -83,9 +83,12 @@ def run(prog: Program) -> Results:
             return predicate_ok(e.body, depth + 1) and predicate_ok(e.orelse, depth + 1)
         if isinstance(e, ast.BoolOp) and isinstance(e.op, ast.Or):
             return all(predicate_ok(v, depth + 1) for v in e.values)
+        if isinstance(e, ast.Call) and isinstance(e.func, ast.Name) and e.func.id == "getattr" and len(e.args) >= 2 and isinstance(e.args[0], ast.Name) \
+                and e.args[0].id == node_param and isinstance(e.args[1], ast.Constant) and e.args[1].value == "has_error":
+            return True  # getattr(<root>, "has_error", None): the same attribute, read defensively
         if isinstance(e, ast.Name) and depth < 3:
             ds = assignments_to(fn, e.id)
-            return bool(ds) and all(isinstance(d, (ast.Assign, ast.AnnAssign)) and predicate_ok(d.value, depth + 1) for d in ds)
+            return bool(ds) and all(isinstance(d, (ast.Assign, ast.AnnAssign, ast.NamedExpr)) and predicate_ok(d.value, depth + 1) for d in ds)
         return False
 
     if not isinstance(gate.ast, ast.Name):
